@@ -13,6 +13,7 @@ fn body(ctx: &Ctx) -> (Summary, Meta) {
                 den: 4,
                 f32_too: a.n() <= 7,
                 xscale: 1.0,
+                nearly_closed: false,
             });
         }
     }
@@ -27,6 +28,7 @@ fn body(ctx: &Ctx) -> (Summary, Meta) {
                     den: 4,
                     f32_too: true,
                     xscale,
+                    nearly_closed: false,
                 });
             }
         }
